@@ -224,7 +224,7 @@ def check(ctx, replay=None):
     rnd = random.Random(ctx.seed)
     rnd.shuffle(cases)
     sys = cmdfam.PROBES
-    for k, c in enumerate(cases[:(120 if th else 25)]):
+    for k, c in enumerate(cases[:(600 if th else 25)]):
         probes, want = [], []
         for ev, dec in zip(header["events"], c["ideal"]):
             if ev["arch"] != "own" or ev["nr"] >= header["x32bit"] or dec not in ("allow", "errno|EPERM"):
